@@ -194,6 +194,7 @@ func runJob(l *Loaded, job Job) (res JobResult) {
 	res.Truncated = ex.truncated
 	res.SolverSec = solver.SolverSec
 	res.Queries = solver.Queries
+	res.OneShot = solver.OneShot
 	if solver.Errors > 0 {
 		if res.Notes == nil {
 			res.Notes = map[string]int{}
